@@ -9,7 +9,8 @@
 (*   - key (de)serialisation is inverse for both algorithms;               *)
 (*   - no call aborts: every call has an outcome (totality).               *)
 (* A scenario is a sequence of calls after a fixed setup (a 2-block token  *)
-(* and an authorizer built with the given algorithm).                      *)
+(* whose root key uses `alg` and whose appended block is signed for a next *)
+(* key of `balg`: the seal signature is made with that key).               *)
 (***************************************************************************)
 EXTENDS Naturals, Sequences, TLC, Json
 
@@ -41,10 +42,10 @@ ErrorAfter(c, before) ==
     THEN (IF c.handle = "null" THEN "InvalidArgument" ELSE "InvalidBlockId")
     ELSE before                                  \* a successful call leaves the slot alone
 
-VARIABLES alg, calls, err, outs
-vars == <<alg, calls, err, outs>>
+VARIABLES alg, balg, calls, err, outs
+vars == <<alg, balg, calls, err, outs>>
 
-Init == alg \in Algs /\ calls = <<>> /\ err = "none" /\ outs = <<>>
+Init == alg \in Algs /\ balg \in Algs /\ calls = <<>> /\ err = "none" /\ outs = <<>>
 
 Next ==
     /\ Len(calls) < MaxCalls
@@ -52,7 +53,7 @@ Next ==
          /\ calls' = Append(calls, c)
          /\ outs' = Append(outs, [out |-> Outcome(c), err |-> ErrorAfter(c, err)])
          /\ err' = ErrorAfter(c, err)
-    /\ UNCHANGED alg
+    /\ UNCHANGED <<alg, balg>>
 
 Spec == Init /\ [][Next]_vars
 
@@ -63,5 +64,5 @@ Total == \A i \in 1..Len(calls) : Outcome(calls[i]) \in {"value", "error"}
 
 Export ==
     (ExportOn /\ Len(calls) = MaxCalls) =>
-        PrintT(<<"CAPI", ToJson([alg |-> alg, calls |-> calls, outs |-> outs])>>)
+        PrintT(<<"CAPI", ToJson([alg |-> alg, balg |-> balg, calls |-> calls, outs |-> outs])>>)
 =============================================================================
